@@ -868,7 +868,6 @@ static inline void sched_point(uintptr_t a, int size, int is_write) {
   if (vs.cfg.tso) tso_capture(t);
   vs.points++;
   t->run_len++;
-  if (size) shadow_check(a, size, is_write);
   if (vs.cfg.stall_thread == t->id + 1) {
     // "stall at any access" flavour: the thread's own k-th scheduling point
     if (++vs.points_t[t->id] == vs.cfg.stall_at && vs.cfg.stall_any) do_stall(t);
@@ -883,6 +882,9 @@ static inline void sched_point(uintptr_t a, int size, int is_write) {
       }
   }
   if (vs.points >= vs.next_event) slow_path();
+  // the heap check comes last: whatever other threads did while this one was switched out at this very point
+  // (e.g. freed the object) is what the access that follows the hook will meet
+  if (size) shadow_check(a, size, is_write);
 }
 
 void vs_watch(const void* lo, size_t len) {
